@@ -3,6 +3,7 @@ import Model
 def handle (line : String) : String :=
   match (line.trimAscii.toString.splitOn " ").filter (· ≠ "") with
   | "LFU" :: rest => LFU.runLine rest
+  | "MEMO" :: rest => Memo.memoLine rest
   | "PKL" :: rest => Pickle.runLine rest
   | "FC" :: rest => Pickle.fcLine rest
   | "ENC" :: rest => Pickle.encLine rest
